@@ -24,7 +24,7 @@ RULE = ("(a) exhaustive: unique-id tensors T[i,j,k] = (id,i,j,k) for every shape
 ASSUMPTIONS = ["differences whose square underflows (|delta| < 1e-150) are outside the float definition of MSE and excluded",
                "SNR clause is statistical: bound chosen so that a false alarm has probability < 1e-12 per check"]
 SHARDS = {"quick": 4, "thorough": 8}
-DECIDING = ["unfold_shape", "unfold_fibres", "fold_unfold_exact", "unfold_fold_exact", "norm_preserved", "moduli_preserved",
+DECIDING = ["moduli_positions", "unfold_shape", "unfold_fibres", "fold_unfold_exact", "unfold_fold_exact", "norm_preserved", "moduli_preserved",
             "rgb_roundtrip", "channels_roundtrip", "psnr_zero_distance", "relerr_zero_distance", "snr_target"]
 
 
@@ -124,6 +124,28 @@ def _gauss(spec, ctx, R):
         M = T.tensor_unfold(X.copy(), mode)
         ctx.check("norm_preserved", abs(float(T.tensor_frobenius_norm(M)) - n0), 8 * (X.size + 4) * refq.EPS * n0, site=f"unfold{mode}")
         ctx.check("moduli_preserved", np.array_equal(np.sort(T.tensor_entrywise_abs(M).ravel()), mods), site=f"unfold{mode}")
+    # POSITIONS of the moduli, for every memory order a tensor can arrive in (C, Fortran, axis-permuted view, reversed axes, and the
+    # views that tensor_unfold / tensor_fold themselves hand out): |X|[i,j,k] = |X[i,j,k]|, |unfold(X)| = unfold of the moduli
+    ref_abs = np.sqrt(np.sum(quaternion.as_float_array(X) ** 2, axis=-1))
+    forms = {"C": X.copy(), "F": np.asfortranarray(X), "permuted_view": np.ascontiguousarray(np.transpose(X, (2, 0, 1))).transpose(1, 2, 0),
+             "reversed_view": np.ascontiguousarray(X[::-1, :, ::-1])[::-1, :, ::-1]}
+    for lab, Xf in forms.items():
+        tb = 4 * refq.EPS * max(float(ref_abs.max()), 1e-300)
+        a = np.asarray(T.tensor_entrywise_abs(Xf))
+        ctx.check("moduli_positions", a.shape == ref_abs.shape and float(np.abs(a - ref_abs).max()) <= tb, site="tensor_entrywise_abs:" + lab, detail={"shape": [I, J, K]})
+        ctx.check("norm_preserved", abs(float(T.tensor_frobenius_norm(Xf)) - ref), 8 * (X.size + 4) * refq.EPS * ref, site="tensor_frobenius_norm:" + lab)
+        for mode in range(3):
+            M = T.tensor_unfold(Xf, mode)
+            perm = [mode] + [d for d in range(3) if d != mode]
+            want = np.transpose(ref_abs, perm).reshape(ref_abs.shape[mode], -1)
+            am = np.asarray(T.tensor_entrywise_abs(M))
+            ctx.check("moduli_positions", am.shape == want.shape and float(np.abs(am - want).max()) <= tb, site=f"abs(unfold{mode}):" + lab,
+                      detail={"shape": [I, J, K], "unfolding_is_c_contiguous": bool(M.flags.c_contiguous)})
+            back = T.tensor_fold(M, mode, (I, J, K))
+            ab = np.asarray(T.tensor_entrywise_abs(back))
+            ctx.check("moduli_positions", ab.shape == ref_abs.shape and float(np.abs(ab - ref_abs).max()) <= tb, site=f"abs(fold(unfold{mode})):" + lab,
+                      detail={"shape": [I, J, K], "fold_output_is_c_contiguous": bool(back.flags.c_contiguous)})
+    ctx.hit("layouts:tensor_memory_orders")
 
 
 def _image(spec, ctx, R):
